@@ -152,13 +152,18 @@ def convex_classes(chk, rng, n):
                 continue
             for cls, extra in ((S.ConvexPolygon, ()), (S.ConvexSpheropolygon, (0.25,))):
                 arg = V.copy()
-                st, sh = C.excname(cls, arg, *extra)
-                chk.case([cls.__name__, V.tolist()], True)
-                desc = dict(cls=cls.__name__, vertices=V.tolist())
+                # "counter-clockwise about the normal": the default normal, or the one the caller asks for (either sign)
+                want = None if rng.random() < 0.5 else np.array([0.0, 0.0, float(rng.choice([-2.0, 0.5]))])
+                kw = {} if want is None else dict(normal=want.copy())
+                st, sh = C.excname(lambda: cls(arg, *extra, **kw))
+                chk.case([cls.__name__, V.tolist(), None if want is None else want.tolist()], True)
+                desc = dict(cls=cls.__name__, vertices=V.tolist(), requested_normal=None if want is None else want.tolist())
                 if st != "ok":
                     chk.violation("valid-convex-polygon-rejected", dict(desc, error=st)); continue
                 W = np.array(sh.vertices)
                 nrm = np.array(sh.normal)
+                if want is not None and not np.allclose(nrm, want / np.linalg.norm(want), rtol=0, atol=1e-12):
+                    chk.violation("requested-normal-not-honoured", dict(desc, normal=nrm.tolist()))
                 # counter-clockwise about the normal: every consecutive turn positive
                 turns = [float(nrm @ np.cross(W[(i + 1) % len(W)] - W[i], W[(i + 2) % len(W)] - W[(i + 1) % len(W)])) for i in range(len(W))]
                 if min(turns) <= 0 or sorted(map(tuple, W.tolist())) != sorted(map(tuple, V.tolist())):
